@@ -719,7 +719,7 @@ def compounds(depth: int, in_loop=None, has_v=False, small=False):
             yield ("loop", 2, "ctx", [("add", ("arr", "i"), 1, None)], 0, 1, reg)
             yield ("loop", 2, "fn", [("m", "1", ("arr", "i"))], 0, 1, reg)
             yield ("loop", 2, "ctx", [("loop", 2, "ctx", [("add", ("arr", 0), ("i",), None)])], 0, 1, reg)
-        for start, stop, step in ((1, 3, 1), (0, 4, 2), (1, 3, 2)):
+        for start, stop, step in ((1, 3, 1), (0, 4, 2), (1, 3, 2), (3, 0, -1), (2, 0, -2), (3, 1, -1)):     # incl. counting down
             yield ("loop", stop, "ctx", [("add", ("arr", 0), 1, None)], start, step)
             yield ("loop", stop, "fn", [("gp", "x")], start, step)
     for k in ("foreach", "enum"):
